@@ -316,11 +316,21 @@ def run(ctx):
         except OSError:
             pass
         args = [mode, kind, str(a)] + ([str(b)] if mode != "stressval" else []) + [str(sp), tp]
-        rc, out, err = ctx.run_exe(exe, args, timeout=ctx.pick(150, 900))
+        tmo = ctx.pick(150, 900)
+        rc, out, err = ctx.run_exe(exe, args, timeout=tmo)
+        if rc == 124:
+            # timed out (a loaded machine, or a hang): once more, a quarter of the size, three times the time
+            if mode == "stressval":
+                a = max(1000, a // 4)
+            else:
+                b = max(500, b // 4)
+            args = [mode, kind, str(a)] + ([str(b)] if mode != "stressval" else []) + [str(sp), tp]
+            name += "-retry"
+            rc, out, err = ctx.run_exe(exe, args, timeout=3 * tmo)
         verdict = None
         if os.path.exists(tp):
             with open(tp) as f:
-                mrc, mout, merr = ctx.run_exe(model, ["traceval" if mode == "stressval" else "tracebuf"], stdin=f.read(), timeout=ctx.pick(150, 900))
+                mrc, mout, merr = ctx.run_exe(model, ["traceval" if mode == "stressval" else "tracebuf"], stdin=f.read(), timeout=ctx.pick(450, 1800))
             verdict = mout.strip() if mrc == 0 else "model-driver-failed rc=%d %s" % (mrc, merr[-300:])
         return dict(name=name, san=san, args=args[:-1], cmd="%s %s" % (exe, " ".join(args)), rc=rc, out=out.strip(), err=err, verdict=verdict, trace=tp)
 
@@ -352,6 +362,9 @@ def run(ctx):
                              "required": "no C++ data race in the documented usage (producers push_back / operator=; one consumer consume,size,empty / update,get,ref)"})
                 ctx.violation("data race reported by ThreadSanitizer in the documented usage (%s)" % " ".join(res_["args"]), conf)
                 race_reported = True
+            continue
+        if rc == 124:
+            ctx.broken.append("stress run %s did not terminate within the time limit, twice (hang, or an overloaded machine)" % res_["name"])
             continue
         if rc != 0:
             if ("crash", res_["args"][0]) in seen_kinds:
